@@ -15,8 +15,11 @@ Two small models (core Lean only), one scenario per case line:
 * **emulation CU** (`amd/emu/computeunit.go`), event level with the real time order:
   `processMapWGReq` (queue, `cu.wfs` entry, an `emulationEvent` at the next WHOLE second only if
   `nextTick <= now`), `runEmulation` (all queued groups, one `WGCompleteEvent` a cycle later each),
-  `handleWGCompleteEvent` (delete entry, append id unless present, others still mapped → return,
-  else ONE message with all finished ids; full port → the event is rescheduled a cycle later).
+  `handleWGCompleteEvent` as repaired by `fix:` 776c38a7 (work-group still mapped → delete the
+  entry and append the id; others still mapped or nothing finished → return, else ONE message
+  with all finished ids; full port → the event is rescheduled a cycle later). The code before
+  the repair (delete entry, append id unless present in the list) is kept as `wgCompleteOld` /
+  `estepOld` / `erunOld`: there a retry event re-appended an id an earlier message had carried.
   Time is counted in cycles, `P` = cycles per second (10^9 shipped). The engine is Akita's serial
   engine: pending events are fired in time order, ties are broken by a binary heap
   (`container/heap`, strict `<` on the time) — NOT first-in-first-out. The abstract model lets
@@ -281,8 +284,27 @@ def runEmu (s : Emu) : Emu :=
   { s with wgcs := s.wgcs ++ s.queue.map (fun id => (s.now + 1, id)),
            wfs := s.queue.foldl (fun w id => ins id w) s.wfs, queue := [] }
 
-/-- `handleWGCompleteEvent` -/
-def wgComplete (s : Emu) (id : Nat) : Emu :=
+/-- `handleWGCompleteEvent`, first half (as repaired by 776c38a7): only the event that finds its
+    work-group still mapped (`_, mapped := cu.wfs[wg]`) deletes the entry and records the request
+    id; a retry event records nothing -/
+def wgRecord (s : Emu) (id : Nat) : Emu :=
+  if id ∈ s.wfs then { s with wfs := s.wfs.erase id, finished := s.finished ++ [id] } else s
+
+/-- `handleWGCompleteEvent`, second half: `len(cu.wfs) != 0 || len(cu.finishedMapWGReqs) == 0` →
+    return; else one message with every finished id; `Send` fails → retry event a cycle later -/
+def wgFlush (s : Emu) (id : Nat) : Emu :=
+  if s.wfs ≠ [] ∨ s.finished = [] then s
+  else if s.out.length < s.outcap then
+    { s with finished := [], out := s.out ++ [s.finished], sent := s.sent ++ [s.finished] }
+  else { s with wgcs := s.wgcs ++ [(s.now + 1, id)] }
+
+/-- `handleWGCompleteEvent` (repaired) -/
+def wgComplete (s : Emu) (id : Nat) : Emu := wgFlush (wgRecord s id) id
+
+/-- `handleWGCompleteEvent` BEFORE the repair: `delete(cu.wfs, wg)`, the id is appended unless it is
+    in `finishedMapWGReqs` — a retry event that fires after another event has sent the batch and
+    cleared the list appends its id again -/
+def wgCompleteOld (s : Emu) (id : Nat) : Emu :=
   let wfs := s.wfs.erase id
   let fin := if id ∈ s.finished then s.finished else s.finished ++ [id]
   if wfs ≠ [] then { s with wfs := wfs, finished := fin }
@@ -293,6 +315,7 @@ def wgComplete (s : Emu) (id : Nat) : Emu :=
 def fireTick (s : Emu) (t : Nat) : Emu := procMap { s with ticks := s.ticks.erase t, now := t }
 def fireEmu (s : Emu) (t : Nat) : Emu := runEmu { s with emus := s.emus.erase t, now := t }
 def fireWgc (s : Emu) (t id : Nat) : Emu := wgComplete { s with wgcs := s.wgcs.erase (t, id), now := t } id
+def fireWgcOld (s : Emu) (t id : Nat) : Emu := wgCompleteOld { s with wgcs := s.wgcs.erase (t, id), now := t } id
 
 inductive EOp
   | deliver (id : Nat)
@@ -312,6 +335,13 @@ def estep (s : Emu) : EOp → Emu
   | .wgc t id => fireWgc s t id
 
 def erun (s : Emu) (ops : List EOp) : Emu := ops.foldl estep s
+
+/-- the same machine with `handleWGCompleteEvent` as it was before the repair -/
+def estepOld (s : Emu) : EOp → Emu
+  | .wgc t id => fireWgcOld s t id
+  | o => estep s o
+
+def erunOld (s : Emu) (ops : List EOp) : Emu := ops.foldl estepOld s
 
 /-- no pending event is earlier than `t` -/
 def minOK (s : Emu) (t : Nat) : Bool :=
